@@ -41,6 +41,7 @@ type MultilineReverseSuffixSearcher struct {
 	prefilter    prefilter.Prefilter
 	prefixBytes  []byte    // Prefix literal for fast verification (nil = use DFA)
 	suffixLen    int       // Length of the suffix literal
+	suffixBytes  []byte    // The suffix literal itself (fast path: last occurrence on the line)
 	forwardDFA   *lazy.DFA // Fallback DFA for complex patterns
 	fwdCachePool sync.Pool
 }
@@ -94,6 +95,7 @@ func NewMultilineReverseSuffixSearcher(
 		prefixBytes: nil, // Will be set by SetPrefixLiterals if applicable
 		forwardDFA:  forwardDFA,
 		suffixLen:   suffixLen,
+		suffixBytes: suffixBytes,
 	}
 	s.fwdCachePool = sync.Pool{
 		New: func() any { return s.forwardDFA.NewCache() },
@@ -101,12 +103,18 @@ func NewMultilineReverseSuffixSearcher(
 	return s, nil
 }
 
-// SetPrefixLiterals enables fast path verification using prefix literals.
-// Call this after construction if the pattern has a simple structure: ^prefix.*suffix
+// SetPrefixLiterals enables the fast path, which answers without an automaton. The caller must
+// have established that the pattern is exactly (?m)^literal.*literal with a greedy default dot
+// (see isMultilineLiteralDotStarLiteral): only then do "the prefix literal stands at the line start"
+// and "the suffix literal occurs later on the line" together prove a match, and only then is the
+// last suffix occurrence its end. The literal sequence must consist of the one complete prefix
+// literal; anything else keeps the DFA path.
 func (s *MultilineReverseSuffixSearcher) SetPrefixLiterals(prefixLiterals *literal.Seq) {
-	if prefixLiterals != nil && !prefixLiterals.IsEmpty() && !prefixLiterals.IsPartialCoverage() {
-		// Get the longest common prefix for verification
-		s.prefixBytes = prefixLiterals.LongestCommonPrefix()
+	if prefixLiterals == nil || prefixLiterals.Len() != 1 || prefixLiterals.IsPartialCoverage() {
+		return
+	}
+	if lit := prefixLiterals.Get(0); len(lit.Bytes) > 0 {
+		s.prefixBytes = lit.Bytes
 	}
 }
 
@@ -139,131 +147,72 @@ func (s *MultilineReverseSuffixSearcher) verifyPrefix(haystack []byte, at int) b
 	return bytes.HasPrefix(haystack[at:], s.prefixBytes)
 }
 
-// Find searches using suffix literal prefilter + line-aware verification.
+// search is the one candidate loop behind Find, FindAt, FindIndicesAt and IsMatch.
 //
-// Fast path (when prefix literals available):
-//  1. Find suffix using SIMD prefilter
-//  2. Find line start (backward scan using SIMD)
-//  3. Verify prefix with simple byte comparison
-//  4. Return match immediately if prefix matches
-//  5. On failure, skip to next line (all candidates on same line will fail)
+// The strategy is selected only for patterns that begin with (?m)^ and whose elements cannot match a
+// newline, so every match lies within one line and starts at that line's first byte. For each line that
+// contains the suffix literal and begins at or after 'at':
 //
-// Slow path (complex patterns):
-//  1. Same candidate finding
-//  2. Use forward DFA for verification
+//   - fast path (pattern is exactly ^literal.*literal, see SetPrefixLiterals): the prefix literal must stand
+//     at the line start; the greedy .* then runs to the LAST occurrence of the suffix on the line that
+//     begins at or after the end of the prefix;
+//   - otherwise the forward DFA of the whole pattern, anchored at the line start, decides and gives the
+//     leftmost-first end.
 //
-// Performance: O(n) with very low constant factor for fast path.
-// Key optimization: when prefix fails, skip entire line - avoids O(n²) worst case.
-func (s *MultilineReverseSuffixSearcher) Find(haystack []byte) *Match {
-	if len(haystack) == 0 {
-		return nil
-	}
-
-	// Iterate through suffix candidates
-	pos := 0
-	for {
-		// Find next suffix candidate using prefilter (SIMD accelerated)
+// A line that begins before 'at' cannot hold a match of a resumed search: (?m)^ does not hold at 'at'
+// unless 'at' is itself a line start. When a line yields no match the loop continues behind it (one
+// anchored scan per line, not one per suffix occurrence).
+func (s *MultilineReverseSuffixSearcher) search(haystack []byte, at int, fwdCache *lazy.DFACache) (start, end int, found bool) {
+	pos := at
+	for pos < len(haystack) {
 		suffixPos := s.prefilter.Find(haystack, pos)
 		if suffixPos == -1 {
-			return nil
+			return -1, -1, false
 		}
-
-		// Find the start of the line containing this suffix
 		lineStart := findLineStart(haystack, suffixPos)
-
-		// Fast path: simple prefix verification (just byte comparison)
-		if len(s.prefixBytes) > 0 {
-			if s.verifyPrefix(haystack, lineStart) {
-				// Match found! No DFA needed.
-				return NewMatch(lineStart, suffixPos+s.suffixLen, haystack)
-			}
-			// Prefix doesn't match at this line start.
-			// Optimization: skip to next line - all other candidates on this line
-			// will have the same lineStart and will also fail.
-			nextLine := bytes.IndexByte(haystack[suffixPos:], '\n')
-			if nextLine == -1 {
-				return nil // No more lines
-			}
-			pos = suffixPos + nextLine + 1
-		} else {
-			// Slow path: use DFA for complex pattern verification
-			fwdCache := s.fwdCachePool.Get().(*lazy.DFACache)
-			end := s.forwardDFA.SearchAtAnchored(fwdCache, haystack, lineStart)
-			s.fwdCachePool.Put(fwdCache)
-			if end >= 0 {
-				return NewMatch(lineStart, end, haystack)
-			}
-			// Move past this suffix candidate
-			pos = suffixPos + 1
+		lineEnd := len(haystack)
+		if nl := bytes.IndexByte(haystack[suffixPos:], '\n'); nl >= 0 {
+			lineEnd = suffixPos + nl
 		}
-
-		if pos >= len(haystack) {
-			return nil
+		if lineStart >= at {
+			if len(s.prefixBytes) > 0 {
+				if s.verifyPrefix(haystack, lineStart) {
+					from := lineStart + len(s.prefixBytes)
+					if from <= lineEnd {
+						if last := bytes.LastIndex(haystack[from:lineEnd], s.suffixBytes); last >= 0 {
+							return lineStart, from + last + s.suffixLen, true
+						}
+					}
+				}
+			} else if e := s.forwardDFA.SearchAtAnchored(fwdCache, haystack, lineStart); e >= 0 {
+				return lineStart, e, true
+			}
 		}
+		// No match starts on this line: go on behind it.
+		pos = lineEnd + 1
 	}
+	return -1, -1, false
 }
 
-// FindAt searches for a match starting from position 'at'.
-//
-// Returns the first match starting at or after position 'at'.
-// Essential for FindAll iteration.
-//
-// Performance: O(n) with very low constant factor for fast path.
-// Key optimization: when prefix fails, skip entire line - avoids O(n²) worst case.
+// Find returns the leftmost match.
+func (s *MultilineReverseSuffixSearcher) Find(haystack []byte) *Match {
+	return s.FindAt(haystack, 0)
+}
+
+// FindAt returns the first match starting at or after position 'at'.
 func (s *MultilineReverseSuffixSearcher) FindAt(haystack []byte, at int) *Match {
-	if at >= len(haystack) {
+	start, end, found := s.FindIndicesAt(haystack, at)
+	if !found {
 		return nil
 	}
-
-	pos := at
-	for {
-		// Find next suffix candidate starting from pos
-		suffixPos := s.prefilter.Find(haystack, pos)
-		if suffixPos == -1 {
-			return nil
-		}
-
-		// Find line start (but not before 'at' for FindAt semantics)
-		lineStart := findLineStart(haystack, suffixPos)
-		if lineStart < at {
-			// The line starts before our search position.
-			lineStart = at
-		}
-
-		// Fast path: simple prefix verification
-		if len(s.prefixBytes) > 0 {
-			if s.verifyPrefix(haystack, lineStart) {
-				return NewMatch(lineStart, suffixPos+s.suffixLen, haystack)
-			}
-			// Prefix doesn't match - skip to next line
-			nextLine := bytes.IndexByte(haystack[suffixPos:], '\n')
-			if nextLine == -1 {
-				return nil // No more lines
-			}
-			pos = suffixPos + nextLine + 1
-		} else {
-			// Slow path: use DFA
-			fwdCache := s.fwdCachePool.Get().(*lazy.DFACache)
-			end := s.forwardDFA.SearchAtAnchored(fwdCache, haystack, lineStart)
-			s.fwdCachePool.Put(fwdCache)
-			if end >= 0 {
-				return NewMatch(lineStart, end, haystack)
-			}
-			// Move past this suffix candidate
-			pos = suffixPos + 1
-		}
-
-		if pos >= len(haystack) {
-			return nil
-		}
-	}
+	return NewMatch(start, end, haystack)
 }
 
 // FindIndicesAt returns match indices starting from position 'at' - zero allocation version.
 func (s *MultilineReverseSuffixSearcher) FindIndicesAt(haystack []byte, at int) (start, end int, found bool) {
 	fwdCache := s.fwdCachePool.Get().(*lazy.DFACache)
 	defer s.fwdCachePool.Put(fwdCache)
-	return s.findIndicesAtImpl(haystack, at, fwdCache)
+	return s.search(haystack, at, fwdCache)
 }
 
 // FindIndicesAtWithCaches is like FindIndicesAt but uses an externally provided cache
@@ -273,109 +222,11 @@ func (s *MultilineReverseSuffixSearcher) FindIndicesAtWithCaches(haystack []byte
 	if fwdCache == nil {
 		return s.FindIndicesAt(haystack, at)
 	}
-	return s.findIndicesAtImpl(haystack, at, fwdCache)
+	return s.search(haystack, at, fwdCache)
 }
 
-// findIndicesAtImpl is the shared implementation for FindIndicesAt and FindIndicesAtWithCaches.
-func (s *MultilineReverseSuffixSearcher) findIndicesAtImpl(haystack []byte, at int, fwdCache *lazy.DFACache) (start, end int, found bool) {
-	if at >= len(haystack) {
-		return -1, -1, false
-	}
-
-	pos := at
-	for {
-		// Find next suffix candidate starting from pos
-		suffixPos := s.prefilter.Find(haystack, pos)
-		if suffixPos == -1 {
-			return -1, -1, false
-		}
-
-		// Find line start (but not before 'at' for FindAt semantics)
-		lineStart := findLineStart(haystack, suffixPos)
-		if lineStart < at {
-			lineStart = at
-		}
-
-		// Fast path: simple prefix verification
-		if len(s.prefixBytes) > 0 {
-			if s.verifyPrefix(haystack, lineStart) {
-				return lineStart, suffixPos + s.suffixLen, true
-			}
-			// Prefix doesn't match - skip to next line
-			nextLine := bytes.IndexByte(haystack[suffixPos:], '\n')
-			if nextLine == -1 {
-				return -1, -1, false
-			}
-			pos = suffixPos + nextLine + 1
-		} else {
-			// Slow path: use DFA
-			endPos := s.forwardDFA.SearchAtAnchored(fwdCache, haystack, lineStart)
-			if endPos >= 0 {
-				return lineStart, endPos, true
-			}
-			// Move past this suffix candidate
-			pos = suffixPos + 1
-		}
-
-		if pos >= len(haystack) {
-			return -1, -1, false
-		}
-	}
-}
-
-// IsMatch checks if the pattern matches using suffix prefilter + line-aware verification.
-//
-// Optimized for boolean matching:
-//   - Uses prefilter for fast candidate finding
-//   - Fast path: simple prefix byte comparison
-//   - Slow path: forward DFA verification
-//   - Early termination on first match
-//   - No Match object allocation
-//
-// Performance: O(n) with very low constant factor for fast path.
-// Key optimization: when prefix fails, skip entire line - avoids O(n²) worst case.
+// IsMatch reports whether the pattern matches anywhere in the haystack.
 func (s *MultilineReverseSuffixSearcher) IsMatch(haystack []byte) bool {
-	if len(haystack) == 0 {
-		return false
-	}
-
-	// Iterate through suffix candidates
-	pos := 0
-	for {
-		// Find next suffix candidate
-		suffixPos := s.prefilter.Find(haystack, pos)
-		if suffixPos == -1 {
-			return false
-		}
-
-		// Find line start
-		lineStart := findLineStart(haystack, suffixPos)
-
-		// Fast path: simple prefix verification
-		if len(s.prefixBytes) > 0 {
-			if s.verifyPrefix(haystack, lineStart) {
-				return true
-			}
-			// Prefix doesn't match - skip to next line
-			nextLine := bytes.IndexByte(haystack[suffixPos:], '\n')
-			if nextLine == -1 {
-				return false // No more lines
-			}
-			pos = suffixPos + nextLine + 1
-		} else {
-			// Slow path: use DFA
-			fwdCache := s.fwdCachePool.Get().(*lazy.DFACache)
-			matched := s.forwardDFA.SearchAtAnchored(fwdCache, haystack, lineStart) >= 0
-			s.fwdCachePool.Put(fwdCache)
-			if matched {
-				return true
-			}
-			// Move past this suffix candidate
-			pos = suffixPos + 1
-		}
-
-		if pos >= len(haystack) {
-			return false
-		}
-	}
+	_, _, found := s.FindIndicesAt(haystack, 0)
+	return found
 }
